@@ -93,3 +93,9 @@ Lemma w5_nonce :
   lib_nonce 1 (be_bytes 32 1) = rfc6979_nonce 1 (Crypto.Sha256.sha256 (hex_ascii (be_bytes 32 1))) /\
   1 <= lib_nonce 1 (be_bytes 32 1) < secp_n.
 Proof. split; [reflexivity|]. vm_compute. split; discriminate || reflexivity. Qed.
+
+(* ---- W7: the nonce depends on the SPELLING of the digest: lower-case and upper-case hex text of the same digest
+        (..00ab / ..00AB) give different RFC 6979 nonces, hence different signatures of the same (key, digest) *)
+Definition w7_dg : bytes := be_bytes 32 171.
+Lemma w7_hex_case : lib_nonce 1 w7_dg <> lib_nonce_upper 1 w7_dg.
+Proof. vm_compute. discriminate. Qed.
